@@ -209,6 +209,23 @@ fn cert_accessors(kind: &str, a: &Cert, b: &Cert) -> R<()> {
     Ok(())
 }
 
+/// The DER an object's encoder writes into a sink that takes one octet resp. seven octets per call - the same octets as the
+/// captured form, or an error, never a shorter document that claims to be written.
+fn pieces_same<V: bcder::encode::Values>(what: &str, v: V, whole: &[u8]) -> R<()> {
+    struct Pieces(usize, Vec<u8>);
+    impl std::io::Write for Pieces {
+        fn write(&mut self, buf: &[u8]) -> std::io::Result<usize> { let n = buf.len().min(self.0); self.1.extend_from_slice(&buf[..n]); Ok(n) }
+        fn flush(&mut self) -> std::io::Result<()> { Ok(()) }
+    }
+    for k in [1usize, 7] {
+        let mut w = Pieces(k, Vec::new());
+        if v.write_encoded(Mode::Der, &mut w).is_ok() && w.1 != whole {
+            return e(&format!("{what}:der:short-writes"), format!("written {k} octets at a time the encoder produces {} octets, the captured form has {}", w.1.len(), whole.len()));
+        }
+    }
+    Ok(())
+}
+
 fn roa_prefix(i: u64) -> (IpAddr, u8, Option<u8>) {
     match i {
         1 => (IpAddr::V4(Ipv4Addr::new(10, 0, 0, 0)), 8, None),
@@ -254,6 +271,7 @@ fn run_case(ctx: &mut Ctx, c: &Value) -> R<()> {
             let bytes = built.to_captured().into_bytes();
             let twin = Cert::decode(bytes.clone()).or_else(|x| e(&format!("{kind}:decode"), x))?;
             same!(kind, "reencode", bytes, twin.to_captured().into_bytes());
+            pieces_same(kind, built.encode_ref(), bytes.as_ref())?;
             check_der_forms(kind, &bytes, c, false)?;
             cert_accessors(kind, &built, &twin)?;
             let v = if ca { twin.clone().validate_ca_at(&issuer, true, now) } else { twin.clone().validate_ee_at(&issuer, true, now) };
@@ -298,6 +316,7 @@ fn run_case(ctx: &mut Ctx, c: &Value) -> R<()> {
             let bytes = built.to_captured().into_bytes();
             let twin = Crl::decode(bytes.clone()).or_else(|x| e("crl:decode", x))?;
             same!(kind, "reencode", bytes, twin.to_captured().into_bytes());
+            pieces_same(kind, built.encode_ref(), bytes.as_ref())?;
             check_der_forms(kind, &bytes, c, true)?;
             twin.verify_signature(&pki.pubkey("k0")).or_else(|x| e("crl:validate", x))?;
             same!(kind, "this_update", built.this_update(), twin.this_update());
@@ -344,6 +363,7 @@ fn run_case(ctx: &mut Ctx, c: &Value) -> R<()> {
             let bytes = built.to_captured().into_bytes();
             let twin = Manifest::decode(bytes.clone(), true).or_else(|x| e("mft:decode", x))?;
             same!(kind, "reencode", bytes, twin.to_captured().into_bytes());
+            pieces_same(kind, built.encode_ref(), bytes.as_ref())?;
             cert_accessors("mft:cert", built.cert(), twin.cert())?;
             check_der_forms("mft:cert", &twin.cert().to_captured().into_bytes(), c, false)?;
             same!(kind, "manifest_number", built.content().manifest_number(), twin.content().manifest_number());
@@ -426,6 +446,7 @@ fn run_case(ctx: &mut Ctx, c: &Value) -> R<()> {
             let bytes = built.to_captured().into_bytes();
             let twin = Roa::decode(bytes.clone(), true).or_else(|x| e("roa:decode", x))?;
             same!(kind, "reencode", bytes, twin.to_captured().into_bytes());
+            pieces_same(kind, built.encode_ref(), bytes.as_ref())?;
             cert_accessors("roa:cert", built.cert(), twin.cert())?;
             check_der_forms("roa:cert", &twin.cert().to_captured().into_bytes(), c, false)?;
             same!(kind, "as_id", built.content().as_id(), twin.content().as_id());
@@ -508,6 +529,7 @@ fn run_case(ctx: &mut Ctx, c: &Value) -> R<()> {
             let bytes = built.to_captured().into_bytes();
             let twin = Aspa::decode(bytes.clone(), true).or_else(|x| e("aspa:decode", x))?;
             same!(kind, "reencode", bytes, twin.to_captured().into_bytes());
+            pieces_same(kind, built.encode_ref(), bytes.as_ref())?;
             cert_accessors("aspa:cert", built.cert(), twin.cert())?;
             check_der_forms("aspa:cert", &twin.cert().to_captured().into_bytes(), c, false)?;
             same!(kind, "customer_as", built.content().customer_as(), twin.content().customer_as());
